@@ -15,22 +15,33 @@ theorem doShutdown_removed (keep : Nat) (slash : Bool) (st : PSt) (p r : Bool)
     (hs : st.f.shutdown = false) (hr : st.f.ready = true) (hm : st.f.removed = true) :
     let st' := doShutdown keep slash st p r
     st'.disk.data = false ∧ st'.f.shutdown = true ∧ st'.f.ready = true ∧ st'.outside = st.outside := by
-  obtain ⟨⟨ready, removed, leave, shutdown⟩, member, acts, disk, outside⟩ := st
+  obtain ⟨⟨ready, removed, leave, shutdown⟩, member, acts, disk, outside, consult⟩ := st
   simp only at hs hr hm
   subst hs hr hm
-  cases leave <;> cases p <;> cases r <;>
-    simp [doShutdown, shutdownActs, cleanupRaft_data]
+  cases leave <;> cases p <;> cases r <;> cases consult <;> cases member <;>
+    simp [doShutdown, shutdownActsC, shutdownActs, cleanupRaft_data]
 
 /-- `Shutdown` of a ready member: it stays a member, or it left and cleaned -/
 theorem doShutdown_member (keep : Nat) (slash : Bool) (st : PSt) (p r : Bool)
     (hs : st.f.shutdown = false) (hr : st.f.ready = true) :
     let st' := doShutdown keep slash st p r
     (st'.member = st.member ∨ st'.disk.data = false) ∧ st'.f.shutdown = true ∧ st'.f.ready = true ∧ st'.outside = st.outside := by
-  obtain ⟨⟨ready, removed, leave, shutdown⟩, member, acts, disk, outside⟩ := st
+  obtain ⟨⟨ready, removed, leave, shutdown⟩, member, acts, disk, outside, consult⟩ := st
   simp only at hs hr
   subst hs hr
-  cases leave <;> cases p <;> cases r <;> cases removed <;>
-    simp [doShutdown, shutdownActs, cleanupRaft_data]
+  cases leave <;> cases p <;> cases r <;> cases removed <;> cases consult <;> cases member <;>
+    simp [doShutdown, shutdownActsC, shutdownActs, cleanupRaft_data]
+
+/-- `Shutdown` that consults an answering `consensus.Peers` at a ready non-member cleans -/
+theorem doShutdown_consult (keep : Nat) (slash : Bool) (st : PSt) (r : Bool)
+    (hs : st.f.shutdown = false) (hr : st.f.ready = true) (hm : st.member = false) (hc : st.consult = true) :
+    let st' := doShutdown keep slash st true r
+    st'.disk.data = false ∧ st'.f.shutdown = true ∧ st'.f.ready = true ∧ st'.outside = st.outside := by
+  obtain ⟨⟨ready, removed, leave, shutdown⟩, member, acts, disk, outside, consult⟩ := st
+  simp only at hs hr hm hc
+  subst hs hr hm hc
+  cases leave <;> cases r <;> cases removed <;>
+    simp [doShutdown, shutdownActsC, shutdownActs, cleanupRaft_data]
 
 theorem safe_hit_flagged {sites : List Site} (h : sitesSafe sites = true) (t : Trig) (ht : t = .absent ∨ t = .selfRemoved) :
     (sites.filter (fun s => classify s == some t)).all (·.flagged) = true := by
@@ -116,17 +127,35 @@ theorem depStep_inv {sites : List Site} (h : sitesSafe sites = true) (keep : Nat
     split_ifs with hs
     · exact hi
     · have hsd : st.f.shutdown = false := by simpa using hs
-      have := doShutdown_member keep slash { st with outside := st.outside || !st.member } p r hsd hr
-      simp only at this
-      obtain ⟨hm, hsh, hrd, ho⟩ := this
-      refine ⟨hrd, ?_⟩
-      cases hmem : st.member <;> simp only [hmem] at hm ho ⊢
-      · left; rw [ho]; simp
-      · right
-        unfold departedClean
-        rcases hm with hm | hd
-        · rw [hm]; simp
-        · rw [hd]; simp
+      by_cases hmem : st.member = true
+      · have := doShutdown_member keep slash { st with outside := st.outside || (!st.member && !(st.consult && p)) } p r hsd hr
+        simp only at this
+        obtain ⟨hm, hsh, hrd, ho⟩ := this
+        refine ⟨hrd, ?_⟩
+        rcases hi.2 with hout | _
+        · left; rw [ho]; simp [hout]
+        · right
+          unfold departedClean
+          rcases hm with hm | hd
+          · rw [hm, hmem]; simp
+          · rw [hd]; simp
+      · have hmf : st.member = false := by simpa using hmem
+        -- a non-member is stopped: outside, unless Shutdown consults an answering peerset (then it cleans)
+        by_cases hcp : (st.consult && p) = true
+        · rw [Bool.and_eq_true] at hcp
+          obtain ⟨hc, hp⟩ := hcp
+          subst hp
+          have := doShutdown_consult keep slash { st with outside := st.outside || (!st.member && !(st.consult && true)) } r hsd hr hmf hc
+          simp only at this
+          refine ⟨this.2.2.1, Or.inr ?_⟩
+          unfold departedClean
+          rw [this.1]; simp
+        · have := doShutdown_member keep slash { st with outside := st.outside || (!st.member && !(st.consult && p)) } p r hsd hr
+          simp only at this
+          refine ⟨this.2.2.1, Or.inl ?_⟩
+          rw [this.2.2.2]
+          simp only [Bool.not_eq_true] at hcp
+          simp [hcp, hmf]
   | write sn =>
     simp only [depStep]
     split_ifs with hs
@@ -136,6 +165,18 @@ theorem depStep_inv {sites : List Site} (h : sitesSafe sites = true) (keep : Nat
       rcases hi.2 with ho | _
       · exact Or.inl ho
       · right; simp [departedClean, hsd]
+  | restart =>
+    simp only [depStep]
+    split_ifs with h1 h2
+    · exact hi
+    · refine ⟨hr, ?_⟩
+      rcases hi.2 with ho | _
+      · exact Or.inl ho
+      · right; simp [departedClean]
+    · exact ⟨hr, by
+        rcases hi.2 with ho | hc
+        · exact Or.inl ho
+        · right; simpa [departedClean] using hc⟩
 
 theorem depRun_inv {sites : List Site} (h : sitesSafe sites = true) (keep : Nat) (slash : Bool) (evs : List DEv) :
     ∀ st, DepInv st → DepInv (depRun sites keep slash st evs) := by
